@@ -11,7 +11,7 @@ use std::path::{Path, PathBuf};
 use std::time::Instant;
 
 fn components() -> Vec<String> {
-    vec!["..".into(), ".".into(), "".into(), "zq_a".into(), "zq_b".into(), "zq_é☠".into(), "..zq".into(), "...".into(), "zq_a\\..\\zq_b".into(), "..\\zq_c".into(), "n".repeat(255), "n".repeat(300)]
+    vec!["..".into(), ".".into(), "".into(), "zq_a".into(), "zq_b".into(), "zq_é☠".into(), "zq,c =d;e".into(), "..zq".into(), "...".into(), "zq_a\\..\\zq_b".into(), "..\\zq_c".into(), "n".repeat(255), "n".repeat(300)]
 }
 
 #[derive(Clone, Debug, PartialEq, Eq, PartialOrd, Ord)]
@@ -414,7 +414,7 @@ fn runs(thorough: bool) -> (Vec<Run>, Value) {
     }
     let bounds = json!({
         "names": names.len(),
-        "grammar": "c1/.../ck, k <= 3 (thorough 4), components {.., ., empty, zq_a, zq_b, unicode, '..zq', '...', 'zq_a\\..\\zq_b' and '..\\zq_c' (ordinary single components on this platform: dots or backslashes inside a name are not path syntax), 255 x n, 300 x n}, with/without leading and trailing '/'",
+        "grammar": "c1/.../ck, k <= 3 (thorough 4), components {.., ., empty, zq_a, zq_b, unicode, 'zq,c =d;e' (comma, space, '=', ';': argument-list punctuation), '..zq', '...', 'zq_a\\..\\zq_b' and '..\\zq_c' (ordinary single components on this platform: dots or backslashes inside a name are not path syntax), 255 x n, 300 x n}, with/without leading and trailing '/'",
         "classes": by.iter().map(|(k, v)| (format!("{k:?}"), v.len())).collect::<BTreeMap<_, _>>(),
         "archives": groups.len(),
         "forms": "whole archive (linear), --glob '*', a listed name, --glob with the exact name; output dir argument relative / absolute / trailing slash / ./relative / absolute with '.' and '..' components; output tree absent, pre-existing with a directory symlink leaving the output directory, pre-existing with longer files at every benign destination (each form), or pre-existing with a symbolic link to a file outside at the destination of a benign member",
